@@ -100,7 +100,7 @@ def run(env, rep):
         disp, _ = res
         marker_of_parser = {}
         for (desc, val), targets in disp.items():
-            if val.startswith("other") or " Eq " in desc or " Ne " in desc:
+            if val.startswith("other") or amf0.is_comparison(desc):
                 continue
             for x in val.split(","):
                 if x.isdigit():
